@@ -129,6 +129,8 @@ def func_value(c, x):
         rhs = fr(d['con']['ub'] if kind <= 0 else d['con']['lb'])
         if kind == 0:
             rhs = fr(d['con']['lb'])
+        if isinstance(v, float) and abs(v - float(rhs)) <= 1e-9 * max(1.0, abs(v)):
+            return None         # a tie decided by rounding: not judged
         return Fr(1 if cmp_kind(v, kind, rhs) else 0)
     args = d.get('args')
     if isinstance(args, list):
@@ -170,17 +172,23 @@ def func_value(c, x):
         return pl_points_eval(prm['x'], prm['y'], a[0])
     if t == 'PowConstraint':
         p = fr(prm[0])
-        if isinstance(a[0], Fr) and p.denominator == 1 and (p >= 0 or a[0] != 0):
+        if isinstance(a[0], Fr) and p.denominator == 1 and (p >= 0 or a[0] != 0) and abs(p) <= 64 and (a[0].numerator.bit_length() + a[0].denominator.bit_length()) * abs(p) <= 4096:
             return a[0] ** int(p)
-        if a[0] < 0 or (a[0] == 0 and p < 0):
+        if (a[0] < 0 and float(p) != int(float(p))) or (a[0] == 0 and p < 0):
             raise ArithmeticError('pow domain')
-        return float(a[0]) ** float(p)
+        try:
+            return math.pow(float(a[0]), float(p))
+        except (OverflowError, ValueError):
+            raise ArithmeticError('pow range')
     if t == 'ExpAConstraint':
-        return float(prm[0]) ** float(a[0])
+        try:
+            return math.pow(float(prm[0]), float(a[0]))
+        except (OverflowError, ValueError):
+            raise ArithmeticError('expA range')
     if t == 'LogAConstraint':
         if a[0] <= 0:
             raise ArithmeticError('log domain')
-        return math.log(float(a[0])) / math.log(float(prm[0]))
+        return math.log10(float(a[0])) if float(prm[0]) == 10.0 else math.log(float(a[0])) / math.log(float(prm[0]))
     if t in FLOAT_FUNCS:
         try:
             return FLOAT_FUNCS[t](float(a[0]))
